@@ -45,6 +45,17 @@ Definition sc_agrees (c : scase) : bool :=
   obs_agree (run_segments_obs (sc_segs c) init_state) (run_segments_obs (lenient_segs (sc_segs c)) init_state) (sc_obs c).
 Definition seg_mismatches (l : list scase) : list nat := map sc_idx (filter (fun c => negb (sc_agrees c)) l).
 
+(* ---- provisioning of one configured location (number 5) that answers with a, trusted signers t *)
+Record pcase := mk_pc { pc_idx : nat; pc_cfg : rcfg; pc_trusted : list N; pc_answer : answer; pc_probe : cert;
+                        pc_ok : bool; pc_verdict : N }.
+Definition pc_agrees (c : pcase) : bool :=
+  let ev := set_env (fun _ => Down) 5%N (pc_answer c) in
+  match provision (pc_cfg c) ev (pc_trusted c) [5%N] (restart (pc_cfg c) (snd init_state)) with
+  | Some st' => pc_ok c && N.eqb (obs_code (Some (snd (handshake (pc_cfg c) ev st' (pc_probe c))))) (pc_verdict c)
+  | None => negb (pc_ok c)
+  end.
+Definition prov_mismatches (l : list pcase) : list nat := map pc_idx (filter (fun c => negb (pc_agrees c)) l).
+
 (* ---- C12: crash images *)
 From Verif Require Import RepoProofs RepoProps.
 Record ccase := mk_cc {
